@@ -152,8 +152,12 @@ func (e *Env) inlinable(f *ssa.Function) bool {
 }
 
 func (fr *frame) inline(callee *ssa.Function, args []*Val, bind []*Val, rt types.Type, pos token.Pos) *Val {
+	return fr.inlineWith(callee, args, bind, rt, pos, nil)
+}
+
+func (fr *frame) inlineWith(callee *ssa.Function, args []*Val, bind []*Val, rt types.Type, pos token.Pos, con *Contract) *Val {
 	ft := fr.ft
-	sub := &frame{ft: ft, fn: callee, depth: fr.depth + 1, vals: map[ssa.Value]*Val{}, dbg: map[types.Object][]ssa.Value{}, free: bind}
+	sub := &frame{ft: ft, fn: callee, depth: fr.depth + 1, vals: map[ssa.Value]*Val{}, dbg: map[types.Object][]ssa.Value{}, free: bind, con: con}
 	sub.inl = callee.Name()
 	if fr.inl != "" {
 		sub.inl = fr.inl + "/" + callee.Name()
@@ -345,6 +349,15 @@ func (fr *frame) copyOp(c *ssa.CallCommon, args []*Val, rt types.Type, pos token
 		}
 	}
 	dcomps := elemLeafComps(dbk, et)
+	{
+		var cs []string
+		for _, lc := range dcomps {
+			cs = append(cs, lc.name)
+		}
+		lo := dst.sOff()
+		hi := app(SIdx, "bvadd", lo, n)
+		fr.frameCheckRange(cs, dbk.Ref, &lo, &hi, "copy", pos)
+	}
 	for li, lc := range dcomps {
 		darrAll := ft.memGet(fr.cur.mem, lc.name, lc.sort)
 		darr := mkSelect(darrAll, dbk.Ref)
@@ -372,10 +385,10 @@ func (fr *frame) copyOp(c *ssa.CallCommon, args []*Val, rt types.Type, pos token
 			}
 		} else {
 			na := ft.c.Fresh("copyarr", lc.leaf)
-			k := fmt.Sprintf("k!%d", ft.c.n)
+			k := ft.c.BoundVar("k")
 			// memmove semantics: source read from the pre-state
-			ft.c.Assume(na, Term{SBool, fmt.Sprintf("(forall ((%s (_ BitVec 64))) (= (select %s %s) (ite (and (bvule %s %s) (bvult %s (bvadd %s %s))) (select %s (bvadd %s (bvsub %s %s))) (select %s %s))))",
-				k, na.T, k, dst.sOff().T, k, k, dst.sOff().T, n.T, sarr.T, soff.T, k, dst.sOff().T, darr.T, k)})
+			ft.c.Assume(na, ft.c.Quant(false, k, SIdx, Term{SBool, fmt.Sprintf("(= (select %s %s) (ite (and (bvule %s %s) (bvult %s (bvadd %s %s))) (select %s (bvadd %s (bvsub %s %s))) (select %s %s)))",
+				na.T, k, dst.sOff().T, k, k, dst.sOff().T, n.T, sarr.T, soff.T, k, dst.sOff().T, darr.T, k)}))
 			narr = na
 		}
 		fr.cur.mem.m[lc.name] = ft.c.Define("m$"+lc.name, mkStore(darrAll, dbk.Ref, narr))
@@ -422,6 +435,17 @@ func (fr *frame) appendOp(c *ssa.CallCommon, args []*Val, rt types.Type, pos tok
 	}
 	base := ft.c.Define("appbase", app(SIdx, "bvadd", s.sOff(), s.sLen()))
 	comps := elemLeafComps(sbk, et)
+	if ft.topCon != nil && ft.topCon.HasAssigns && ft.fn != nil {
+		var cs []string
+		for _, lc := range comps {
+			cs = append(cs, lc.name)
+		}
+		// an in-place append writes the backing array of s
+		save := fr.cur.pc
+		fr.cur.pc = ft.c.Define("pc", mkAnd(fr.cur.pc, fits))
+		fr.frameCheck(cs, s.sRef(), "append", pos)
+		fr.cur.pc = save
+	}
 	for li, lc := range comps {
 		all := ft.memGet(fr.cur.mem, lc.name, lc.sort)
 		sarr := mkSelect(all, s.sRef())
@@ -444,9 +468,9 @@ func (fr *frame) appendOp(c *ssa.CallCommon, args []*Val, rt types.Type, pos tok
 			}
 		} else {
 			na := ft.c.Fresh("apparr", lc.leaf)
-			k := fmt.Sprintf("k!%d", ft.c.n)
-			ft.c.Assume(na, Term{SBool, fmt.Sprintf("(forall ((%s (_ BitVec 64))) (= (select %s %s) (ite (and (bvule %s %s) (bvult %s (bvadd %s %s))) (select %s (bvadd %s (bvsub %s %s))) (select %s %s))))",
-				k, na.T, k, base.T, k, k, base.T, tLen.T, tarr.T, tOff.T, k, base.T, sarr.T, k)})
+			k := ft.c.BoundVar("k")
+			ft.c.Assume(na, ft.c.Quant(false, k, SIdx, Term{SBool, fmt.Sprintf("(= (select %s %s) (ite (and (bvule %s %s) (bvult %s (bvadd %s %s))) (select %s (bvadd %s (bvsub %s %s))) (select %s %s)))",
+				na.T, k, base.T, k, k, base.T, tLen.T, tarr.T, tOff.T, k, base.T, sarr.T, k)}))
 			narr = na
 		}
 		narr = ft.c.Define("apparrv", narr)
